@@ -104,7 +104,7 @@ Proof.
     pose proof (in_fl_le _ _ _ (cexpr_le env _ _ _ _ Hra) Hfl) as Hfl0.
     eapply (expr_panics e); eauto using code_at_app_l. exact (ginv_locals_ok _ _ _ _ _ _ _ HFL Hfl0 Hinv).
   - (* assignment *)
-    apply andb_prop in Hsafe as [Hsr _].
+    apply andb_prop in Hsafe as [Hsr _]. apply andb_prop in Hsr as [Hsr _].
     destruct (negb (nrhs =? 1)); [discriminate|].
     pinv He vs.
     2:{ exfalso. destruct tok, lhs as [|[x t] [|]], vs as [|v [|]]; try discriminate;
